@@ -36,6 +36,8 @@ MergeW(p, c) ==
   IF "merge_keeps_readings" \in Dev THEN [Merge(p, c) EXCEPT !.ind = p.ind, !.sub = p.sub]
   ELSE Merge(p, c)
 
+\* the walk over the candles after the first; the branch and its effect on the window come from
+\* Buckets.tla (BranchI / StepI), the candle-level effect (merge or append with a label) is here
 RECURSIVE Walk(_, _, _, _, _)
 Walk(out, rest, s, e, tf) ==
   IF rest = <<>> THEN [ok |-> TRUE, cs |-> out]
@@ -43,33 +45,15 @@ Walk(out, rest, s, e, tf) ==
     LET c  == Head(rest)
         r  == Tail(rest)
         p  == Last(out)
-        nx == e + tf
     IN IF c.ts = NoTs \/ p.ts = NoTs THEN Walk(out, r, s, e, tf)   \* candle silently dropped
-       ELSE IF s < c.ts /\ c.ts <= e /\ p.ts = e
-         THEN Walk(ReplaceLast(out, MergeW(p, c)), r, s, e, tf)                     \* B1
-       ELSE IF s < c.ts /\ c.ts <= e
-         THEN Walk(Append(out, [c EXCEPT !.ts = e]), r, s, e, tf)                   \* B2
-       ELSE IF s - tf < c.ts /\ c.ts <= s /\ p.ts = s
-         THEN Walk(ReplaceLast(out, MergeW(p, c)), r, s, e, tf)                     \* B3
-       ELSE IF e < c.ts /\ c.ts <= nx
-         THEN Walk(Append(out, [c EXCEPT !.ts = nx]), r, s + tf, e + tf, tf)        \* B4
-       ELSE IF s < c.ts /\ OnTf(c.ts, tf)
-         THEN Walk(Append(out, c), r, c.ts, c.ts + tf, tf)                          \* B5
-       ELSE IF nx < c.ts
-         THEN LET s2 == RoundDown(c.ts, tf)
-              IN Walk(Append(out, [c EXCEPT !.ts = s2 + tf]), r, s2, s2 + tf, tf)   \* B6
-       ELSE [ok |-> FALSE, cs |-> out]                                              \* B7
+       ELSE LET st == StepI(p.ts, c.ts, s, e, tf)
+            IN IF ~st.ok THEN [ok |-> FALSE, cs |-> out]                                  \* B7
+               ELSE IF st.merge THEN Walk(ReplaceLast(out, MergeW(p, c)), r, st.s, st.e, tf) \* B1 B3
+               ELSE Walk(Append(out, [c EXCEPT !.ts = st.label]), r, st.s, st.e, tf)      \* B2 B4 B5 B6
 
 \* which branch the walk takes for candle c in state (p, s, e): used for coverage reports
 WalkBranch(p, c, s, e, tf) ==
-  IF c.ts = NoTs \/ p.ts = NoTs THEN 0
-  ELSE IF s < c.ts /\ c.ts <= e /\ p.ts = e THEN 1
-  ELSE IF s < c.ts /\ c.ts <= e THEN 2
-  ELSE IF s - tf < c.ts /\ c.ts <= s /\ p.ts = s THEN 3
-  ELSE IF e < c.ts /\ c.ts <= e + tf THEN 4
-  ELSE IF s < c.ts /\ OnTf(c.ts, tf) THEN 5
-  ELSE IF e + tf < c.ts THEN 6
-  ELSE 7
+  IF c.ts = NoTs \/ p.ts = NoTs THEN 0 ELSE BranchI(p.ts, c.ts, s, e, tf)
 
 (***************************************************************************)
 (* fill_missing_candles                                                    *)
@@ -96,8 +80,8 @@ Collapse(cs, cfg) ==
   ELSE IF cs[1].ts = NoTs THEN [ok |-> TRUE, cs |-> Tail(cs)]  \* as shipped: the popped first candle is lost
   ELSE
     LET c0   == cs[1]
-        s0   == RoundDown(c0.ts, cfg.tf)
-        init == IF OnTf(c0.ts, cfg.tf) THEN c0 ELSE [c0 EXCEPT !.ts = s0 + cfg.tf]
+        s0   == FirstS(c0.ts, cfg.tf)
+        init == [c0 EXCEPT !.ts = FirstLabel(c0.ts, cfg.tf)]
         w    == Walk(<<init>>, Tail(cs), s0, s0 + cfg.tf, cfg.tf)
     IN IF ~w.ok THEN w
        ELSE [ok |-> TRUE, cs |-> IF cfg.fill THEN FillWalk(w.cs, cfg.tf) ELSE w.cs]
